@@ -36,6 +36,11 @@ structure DSt where
   dirty : Int := 0                  -- `waited` at the last op that may change a poller's result
   synced : Bool := false            -- a `sync` handshake has happened since the last such op
   flags : List (Nat × Bool) := []   -- predicates whose current script is a bare flag (empty queue) ↦ value
+  polledLeaves : List Nat := []     -- predicates some periodic condition has been built on so far
+  gates : List (Nat × Option Nat) := []  -- armed gate per predicate: `some k` = the poller's k-th call (the poller
+                                    -- is created after the gate was armed), `none` = a later call of a running poller
+  held : List (Nat × Option Nat) := []   -- predicates whose poller is inside the gated call (after `await`)
+  inflight : List (Nat × Option Nat) := [] -- … and got `terminate()` while it was there
 
 def init (ts : List String) : Option DSt :=
   match ts with
@@ -160,7 +165,8 @@ def mkLeaf (d : DSt) (period : Option Float) (l : LeafSpec) : Option (Cond × DS
   | .pred id =>
     some (.leaf i polled (.pred id),
       { d1 with leafIds := insertSorted id d1.leafIds,
-                async := if polled && !d1.async.contains id then id :: d1.async else d1.async })
+                async := if polled && !d1.async.contains id then id :: d1.async else d1.async,
+                polledLeaves := if polled && !d1.polledLeaves.contains id then id :: d1.polledLeaves else d1.polledLeaves })
   | .always => some (.leaf i polled .always, d1)
   | .never => some (.leaf i polled .never, d1)
   | .exact => some (.leaf i polled .exact, d1)
@@ -194,6 +200,39 @@ def applyDef (d : DSt) : DefSpec → Option (Cond × DSt)
     some (r.1, { d with nextImpl := d.nextImpl + 1, w := r.2 })
 
 def b01 (b : Bool) : String := if b then "1" else "0"
+
+/-- the periodic condition built on scripted predicate `id` (generator contract: at most one per predicate in
+scripts that ask for `naps`), with the period its impl was handed -/
+def pollerOn (d : DSt) (id : Nat) : Option Float :=
+  let rec find : Cond → Option Nat
+    | .leaf i p k => if p && k == .pred id then some i else none
+    | .or _ a b => (find a).orElse (fun _ => find b)
+    | .and _ a b => (find a).orElse (fun _ => find b)
+  match d.names.findSome? (fun p => find p.2) with
+  | some i => (d.periodF.find? (fun q => q.1 == i)).map (·.2)
+  | none => none
+
+/-- `n=… ns=…` of the `naps` / `napsexit` answers: the step machine of the poller loop (`TState`) runs alone up
+to the gated call (`exit = false`: the sleeps between the previous call and this one), then - `exit = true` -
+sees `terminate()` while inside that call and runs until it has left its loop (the sleeps after the call).
+Beyond 10^6 sleeps per round the machine is not run step by step; `poller_sleeps_count_times_between_calls`
+is used as the closed form. -/
+def napAnswer (period : Float) (k : Option Nat) (exit : Bool) : String :=
+  let plan := napPlan period
+  let nap := plan.nap.toNat
+  let coded := if (milli : Float) < period then secondsToNs (period / Nat.toFloat plan.count) else secondsToNs period
+  let kk := k.getD 2
+  let n :=
+    if plan.count > 1000000 then
+      (if exit then 0 else if kk ≤ 1 then 0 else (if 0 < nap then plan.count else 0))
+    else
+      let s0 := TState.untilCall plan.count nap (fun _ => false) kk ((2 * plan.count + 8) * kk + 8) {}
+      if exit then
+        (TState.untilDone plan.count nap (fun _ => false) (2 * plan.count + 8)
+          (s0.step plan.count nap (fun _ => false) .terminate)).naps
+      else s0.lastGap
+  let ns := if coded != plan.nap then "split" else if n = 0 then "-" else toString plan.nap
+  s!"n={n} ns={ns}"
 
 def step (d : DSt) (ts : List String) : DSt × String :=
   match ts with
@@ -236,7 +275,11 @@ def step (d : DSt) (ts : List String) : DSt × String :=
       | none => (d, "unknown")
     else if op == "term" then
       match lookup d.names a with
-      | some c => (touch { d with w := { d.w with st := terminate c d.w.st } }, "ok")
+      | some c =>
+        let hit := match c with
+          | .leaf _ true (.pred id) => d.held.filter (fun p => p.1 == id)
+          | _ => []
+        (touch { d with w := { d.w with st := terminate c d.w.st }, inflight := hit ++ d.inflight }, "ok")
       | none => (d, "unknown")
     else if op == "itcev" then
       match lookup d.itcs a with
@@ -274,7 +317,23 @@ def step (d : DSt) (ts : List String) : DSt × String :=
       -- the model's answer after `term` does not depend on where the poller is
       -- (`polled_terminate_sticky_all_interleavings`)
       match parseNat? a with
-      | some _ => (touch d, "ok")
+      | some id =>
+        if op == "await" then
+          let g := d.gates.filter (fun p => p.1 == id)
+          (touch { d with held := g ++ d.held.filter (fun p => p.1 != id) }, "ok")
+        else
+          (touch { d with held := d.held.filter (fun p => p.1 != id), gates := d.gates.filter (fun p => p.1 != id) }, "ok")
+      | none => (d, "bad-op")
+    else if op == "fastnap" then
+      -- harness side only: the interposed `nanosleep` of poller threads returns at once
+      if a == "0" || a == "1" then (d, "ok") else (d, "bad-op")
+    else if op == "naps" || op == "napsexit" then
+      match parseNat? a with
+      | some id =>
+        let src := if op == "naps" then d.held else d.inflight
+        match src.find? (fun p => p.1 == id), pollerOn d id with
+        | some h, some per => (d, napAnswer per h.2 (op == "napsexit"))
+        | _, _ => (d, "n=? ns=?")
       | none => (d, "bad-op")
     else if op == "cost" then
       match parseFloatBits? a with
@@ -328,7 +387,12 @@ def step (d : DSt) (ts : List String) : DSt × String :=
     | _, _ => (d, "bad-op")
   | ["gate", id, k, v] =>
     match parseNat? id, parseNat? k, parseBit? v with
-    | some _, some k, some _ => if 1 ≤ k ∧ k ≤ 1000000 then (touch d, "ok") else (d, "bad-op")
+    | some id, some k, some _ =>
+      if 1 ≤ k ∧ k ≤ 1000000 then
+        let g : Nat × Option Nat := (id, if d.polledLeaves.contains id then none else some k)
+        (touch { d with gates := g :: d.gates.filter (fun p => p.1 != id),
+                        inflight := d.inflight.filter (fun p => p.1 != id) }, "ok")
+      else (d, "bad-op")
     | _, _, _ => (d, "bad-op")
   | ["settle"] => (touch d, "ok")
   | ["sync"] =>
